@@ -81,6 +81,9 @@ type PKI struct {
 	ECRoot, ECSrv                                                *Ident
 	RSAClient, ECClient                                          *Ident
 	RootsSM2, RootsStd, RootsAll                                 *gx.CertPool
+	// StdClients: two CA-issued client certificates (with their keys) per non-SM2 key type: "rsa", "p224", "p256", "p384",
+	// "p521" - issued by RSARoot / ECRoot
+	StdClients map[string][2]*Ident
 }
 
 func sm2Key(i int64) (*sm2.PrivateKey, *big.Int) {
@@ -223,6 +226,20 @@ func GetPKI() *PKI {
 		p.ECSrv = mkStd(valid(certOpt{cn: "ec srv", ku: signKU, eku: srvEKU, dns: []string{ServerName}}), &ek2.PublicKey, ek2, p.ECRoot)
 		ek3, _ := ecdsa.GenerateKey(elliptic.P256(), rand.Reader)
 		p.ECClient = mkStd(valid(certOpt{cn: "ec client", ku: signKU, eku: cliEKU}), &ek3.PublicKey, ek3, p.ECRoot)
+		p.StdClients = map[string][2]*Ident{}
+		rk4, _ := rsa.GenerateKey(rand.Reader, 2048)
+		p.StdClients["rsa"] = [2]*Ident{p.RSAClient, mkStd(valid(certOpt{cn: "rsa client 2", ku: signKU, eku: cliEKU}), &rk4.PublicKey, rk4, p.RSARoot)}
+		for name, curve := range map[string]elliptic.Curve{"p224": elliptic.P224(), "p256": elliptic.P256(), "p384": elliptic.P384(), "p521": elliptic.P521()} {
+			var pair [2]*Ident
+			for i := range pair {
+				ck, err := ecdsa.GenerateKey(curve, rand.Reader)
+				if err != nil {
+					panic(err)
+				}
+				pair[i] = mkStd(valid(certOpt{cn: fmt.Sprintf("%s client %d", name, i), ku: signKU, eku: cliEKU}), &ck.PublicKey, ck, p.ECRoot)
+			}
+			p.StdClients[name] = pair
+		}
 		p.RootsSM2, p.RootsStd, p.RootsAll = gx.NewCertPool(), gx.NewCertPool(), gx.NewCertPool()
 		p.RootsSM2.AddCert(p.SM2Root.Cert)
 		p.RootsStd.AddCert(p.RSARoot.Cert)
